@@ -57,7 +57,7 @@ impl From<K2> for K {
 }
 
 // ---- type erasure so that adapter stacks of any depth have one Rust type -------------------
-pub trait DynT<C, E> {
+pub trait DynT<C: PixelColor, E> {
     fn d_draw_iter(&mut self, it: &mut dyn Iterator<Item = Pixel<C>>) -> Result<(), E>;
     fn d_fill_contiguous(&mut self, area: &Rectangle, it: &mut dyn Iterator<Item = C>) -> Result<(), E>;
     fn d_fill_solid(&mut self, area: &Rectangle, c: C) -> Result<(), E>;
@@ -82,8 +82,8 @@ impl<T: DrawTarget> DynT<T::Color, T::Error> for T {
     }
 }
 /// Forwards each of the four methods to the same method of the erased target (no default is used).
-pub struct Dyn<'a, C, E>(pub &'a mut dyn DynT<C, E>);
-impl<C, E> Dimensions for Dyn<'_, C, E> {
+pub struct Dyn<'a, C: PixelColor, E>(pub &'a mut dyn DynT<C, E>);
+impl<C: PixelColor, E> Dimensions for Dyn<'_, C, E> {
     fn bounding_box(&self) -> Rectangle {
         self.0.d_bb()
     }
